@@ -731,11 +731,11 @@ def check_C17(tier, seed):
 
 def _hist_code(rules):
     variants = "\n".join("    r_%s(t::rules::r#%s<'i>)," % (r, r) for r in rules)
-    calls = "\n".join("""            "%s" => match t::rules::r#%s::try_parse_partial(span) {
+    calls = "\n".join("""            "%s" => match go!(t::rules::r#%s) {
                 Ok((rest, n)) => {
                     let h = hcommon_hash(&n);
                     let c = n.clone();
-                    info.push(serde_json::json!({"ok": true, "end": rest.byte_offset(), "dbg": format!("{:?}", n), "hash": h, "clone_eq": c == n, "clone_hash_eq": hcommon_hash(&c) == h}));
+                    info.push(serde_json::json!({"ok": true, "end": rest, "dbg": format!("{:?}", n), "hash": h, "clone_eq": c == n, "clone_hash_eq": hcommon_hash(&c) == h}));
                     res.push(Any::r_%s(n));
                 }
                 Err(_) => { info.push(serde_json::json!({"ok": false})); res.push(Any::Fail); }
@@ -758,10 +758,21 @@ pub fn history(job: &hcommon::Job) -> serde_json::Value {
     let full: &str = job.full.as_str();     // ONE input object for the whole history
     let mut res: Vec<Any> = vec![];
     let mut info: Vec<serde_json::Value> = vec![];
-    for call in job.raw["hist"].as_array().unwrap() {
+    for (k, call) in job.raw["hist"].as_array().unwrap().iter().enumerate() {
         let rule = call[0].as_str().unwrap();
         let (lo, hi) = (call[1].as_u64().unwrap() as usize, call[2].as_u64().unwrap() as usize);
         let span = pest_typed::Span::new(full, lo, hi).unwrap();
+        // the same arguments reach the parser through different input forms, depending on the place in the history
+        let form = if hi == full.len() && k %% 2 == 1 { if lo == 0 { 1 } else { 2 } } else { 0 };
+        macro_rules! go {
+            ($t:ty) => {
+                match form {
+                    1 => <$t>::try_parse_partial(full).map(|(r, n)| (r.byte_offset(), n)),
+                    2 => <$t>::try_parse_partial(pest_typed::Position::new(full, lo).unwrap()).map(|(r, n)| (r.byte_offset(), n)),
+                    _ => <$t>::try_parse_partial(span).map(|(r, n)| (r.byte_offset(), n)),
+                }
+            };
+        }
         match rule {
 %s
             _ => { info.push(serde_json::json!({"unknown": true})); res.push(Any::Fail); }
@@ -800,7 +811,7 @@ def check_C18(tier, seed):
     for r in rules:
         for (lo, hi) in ranges:
             pool.append({"g": 1, "rule": r, "lo": lo, "hi": hi})
-    npool = 10 if tier == "quick" else 16
+    npool = 14 if tier == "quick" else 18
     H = 3 if tier == "quick" else 4
     rounds = 4 if tier == "quick" else 8
     g["rules"] = rules
@@ -816,7 +827,7 @@ def check_C18(tier, seed):
         # two rules per pool, several sub-ranges each, so that results of the same type meet in most histories
         pairs = [("w", "s"), ("o", "l"), ("c", "p"), ("n", "s"), ("s", "o"), ("l", "w"), ("p", "n"), ("c", "o")]
         ra, rb = pairs[rd % len(pairs)]
-        must = [(0, 2), (3, 5), (9, 11)]
+        must = [(0, 2), (0, 5), (0, L), (3, 5), (3, L), (9, 11)]
         sub = []
         for r in (ra, rb):
             rs = must + rnd.sample([x for x in ranges if x not in must], npool // 2 - len(must))
@@ -890,6 +901,9 @@ def fam_opt(tier):
                   alphabet=cps("abc "), maxlen=4, inputs=[cps(s) for s in ["aabbcd", "aab cdd", "a a b c d", "aabbbccdd", "abab", "ababa", "ab a", "c c", "c ", "abc c", "ab c"]]))
     g.append(dict(id="op3", text='v = { o | a | s | "t" }\no = { "{" ~ (m ~ ("," ~ m)*)? ~ "}" }\nm = { s ~ ":" ~ v }\na = { "[" ~ (v ~ ("," ~ v)*)? ~ "]" }\ns = @{ "\'" ~ (!"\'" ~ ANY)* ~ "\'" }',
                   alphabet=cps("{}[],:t'"), maxlen=3, inputs=[cps(x) for x in ["{'t':t}", "[t,[t],{}]", "{'':[t,t]}", "[[[t]]]", "{'a':{'b':t}}", "[t,", "{'t'}", "'t"]]))
+    g.append(dict(id="op6", text='c = @{ "/*" ~ (!"*/" ~ ANY)* ~ "*/" }\nq = @{ (!("é" | ";") ~ ANY)* ~ ";" }\ns = { "[" ~ (c | q)* ~ "]" }',
+                  alphabet=[233, 20013, 59, 42, 47], maxlen=3,
+                  inputs=[cps(x) for x in ["/*é*/", "/* 注 */", "/*中*/", "é;", "中é;", "[/*é*/中;]", "[中;/**/]", "/*é", "中中;", "/*中中*/", "[é;]"]]))
     if tier != "quick":
         g.append(dict(id="op4", text='x = { PUSH("a" | "b") ~ (y | "-")* ~ POP }\ny = { "(" ~ x ~ ")" | PEEK }', alphabet=cps("ab-()"), maxlen=4,
                       inputs=[cps(x) for x in ["a-a", "a(b-b)a", "aaa", "a(bb)-a", "b(a(b-b)a)b"]]))
